@@ -47,7 +47,7 @@ PROPERTY_MODULES = {
 STANDINS = {
     "C03": [{"mirror": "corpus_no_exception"}, {"mirror": "generated_no_exception"}],
     "C04": [{"mirror": "valid_output_bounded"}],
-    "C05": [{"mirror": "corpus", "trait": "none"}],
+    "C05": [{"mirror": "corpus", "trait": "none"}, {"mirror": "generated", "trait": "none"}],
     "C08": [{"mirror": "corpus", "trait": "cleanup"}, {"mirror": "generated", "trait": "cleanup"}],
     "C09": [{"mirror": "corpus", "trait": "unused"}, {"mirror": "interface_positions"}, {"mirror": "remove_unused"}, {"mirror": "generated", "trait": "unused"}],
     "C11": [{"mirror": "corpus", "trait": "symmetry"}, {"mirror": "generated", "trait": "symmetry"}],
